@@ -486,6 +486,38 @@ def g_replace(r):
                                                 for k in ("cat", "xy", "bubble")}, "held": r.random() < 0.4, "slot": r.choice([None, None, 0, 1])}
 
 
+def _kit_readings(kit, n_series=None):
+    out = {"cats": [], "series": []}
+    for p_, c_ in zip(kit["plots"], kit["cats"]):
+        ent = {"len": len(c_), "iter": [str(x) for x in c_], "index": [str(c_[i]) for i in range(len(c_))], "via_plot": [str(x) for x in p_.categories],
+               "names": [s_.name for s_ in p_.series]}
+        try:
+            ent["flat"] = [list(t) for t in c_.flattened_labels]
+            ent["depth"] = c_.depth
+        except Exception as e:  # noqa: BLE001  (same on kept and fresh objects: compared, not judged)
+            ent["flat"] = "raises %s" % type(e).__name__
+        out["cats"].append(ent)
+    for s_ in kit["series"][: n_series if n_series is not None else len(kit["series"])]:
+        out["series"].append([s_.name, [None if v is None else repr(v) for v in s_.values]])
+    return out
+
+
+def _first_diff_json(a, b, path=""):
+    if type(a) is not type(b):
+        return "%s: fresh=%r kept=%r" % (path, a, b)
+    if isinstance(a, dict):
+        for k in sorted(a):
+            if a[k] != b.get(k):
+                return _first_diff_json(a[k], b.get(k), path + "/" + str(k))
+    if isinstance(a, list):
+        if len(a) != len(b):
+            return "%s: fresh has %d, kept has %d: %r vs %r" % (path, len(a), len(b), a[:6], b[:6])
+        for i, (x, y) in enumerate(zip(a, b)):
+            if x != y:
+                return _first_diff_json(x, y, path + "/%d" % i)
+    return "%s: fresh=%r kept=%r" % (path, a, b)
+
+
 @O.op("c07.replace", "c07", weight=6.0)
 @O.gen(g_replace)
 def _replace(w, deck, a):
@@ -513,6 +545,14 @@ def _replace(w, deck, a):
     cd_obj, rec = _chart_data_for(w, a.get("slot"), rec, want_kind=gens.chart_kind(ct))
     if ct in gens.PIE_TYPES and not rec["series"]:
         raise O.Skip("pie needs a series")
+    kit = None
+    if a.get("held"):
+        # the caller keeps the plot / categories / series objects it looked at, and looks at them again after the replacement
+        kit = deck.handles.get(("c07kit", key))
+        if kit is None:
+            plots_ = list(chart.plots)
+            kit = deck.handles[("c07kit", key)] = {"plots": plots_, "cats": [p_.categories for p_ in plots_], "series": [s_ for p_ in plots_ for s_ in p_.series]}
+        _kit_readings(kit)
     before = chart.part.blob
     n_before = len(list(refpkg.parse(before).iter(C + "ser")))
     if n_before == 0:
@@ -529,6 +569,26 @@ def _replace(w, deck, a):
         w.report(sig, "type=%s data=%s\n%s" % (ct, jdump(rec)[:600], traceback.format_exc()[-900:]), CLAUSES["accept"])
         return "undoc:%s" % type(e).__name__
     _after_data_op(w, deck, sl, sh, chart, rec, "after-replace", before_blob=before, n_before=n_before)
+    if kit is None and ("c07kit", key) in deck.handles:
+        if sum(len(list(p_.series)) for p_ in chart.plots) < len(deck.handles[("c07kit", key)]["series"]):
+            del deck.handles[("c07kit", key)]       # (see below)
+    if kit is not None:
+        fresh_plots = list(chart.plots)
+        if len(fresh_plots) == len(kit["plots"]) and [type(p_).__name__ for p_ in fresh_plots] == [type(p_).__name__ for p_ in kit["plots"]]:
+            fresh = {"plots": fresh_plots, "cats": [p_.categories for p_ in fresh_plots], "series": [s_ for p_ in fresh_plots for s_ in p_.series]}
+            n_keep = min(len(kit["series"]), len(fresh["series"]))
+            try:
+                got = _kit_readings(kit, n_keep)
+            except Exception as e:  # noqa: BLE001
+                got = "raises %s" % type(e).__name__
+            want = _kit_readings(fresh, n_keep)
+            if got != want:
+                w.report("readings|kept-plot-objects-differ-from-fresh-ones|after-replace", _first_diff_json(want, got), CLAUSES["cats"])
+            w.stats.hit("c07_kept_plot_objects_compared")
+            if len(fresh["series"]) < len(kit["series"]):
+                deck.handles[("c07kit", key)] = fresh   # surplus series were removed: objects kept for them now stand for nothing
+        else:
+            deck.handles.pop(("c07kit", key), None)
     w.stats.hit("c07_replaces")
     if len(rec["series"]) < n_before:
         w.stats.hit("c07_replace_fewer_series")
@@ -736,7 +796,9 @@ def pinned_traces(tier, which=("c07",)):
     for deck in ("f-cht-replace-data.pptx", "f-cht-charts.pptx", "f-cht-series.pptx", "f-cht-chart-type.pptx"):
         evs = []
         for k in range(8):
-            evs.append({"op": "c07.replace", "chart": k, "datas": {"cat": _simple("cat", 3, 3), "xy": _simple("xy", 2, [2, 3]), "bubble": _simple("bubble", 2, [2, 2])}})
+            evs.append({"op": "c07.replace", "chart": k, "held": True, "datas": {"cat": _simple("cat", 3, 3), "xy": _simple("xy", 2, [2, 3]), "bubble": _simple("bubble", 2, [2, 2])}})
+        for k in range(8):      # second round through the objects kept in the first: more categories, more series, other labels
+            evs.append({"op": "c07.replace", "chart": k, "held": True, "datas": {"cat": _simple("cat", 4, 5), "xy": _simple("xy", 3, [4, 1, 2]), "bubble": _simple("bubble", 3, [3, 3, 1])}})
         evs += [{"op": "checkpoint", "sink": "seekable"}, {"op": "restart"}]
         out.append({"property": pid, "seed": "corpus-%s" % deck, "tier": "pinned", "config": {"pinned": True, "chart_checks": list(which)},
                     "start": [{"deck": deck}], "events": evs})
